@@ -31,7 +31,8 @@ KeySchedule(suite, mode, ss, info, psk, pskId) ==
 (* the bundle's two fields were connected differently.  "rfc" is the real  *)
 (* one.  Used only to IDENTIFY a deviation, never as a prediction.         *)
 (***************************************************************************)
-WiringHyps == {"rfc", "swap", "nopsk", "noid", "pskboth", "idboth"}
+WiringHyps == {"rfc", "swap", "nopsk", "noid", "pskboth", "idboth", "idcut1", "idcut2", "pskcut1", "pskcut2"}
+CutTail(bs, k) == IF BLen(bs) > k THEN Take(bs, BLen(bs) - k) ELSE <<>>
 KeyScheduleH(hyp, suite, mode, ss, info, psk, pskId) ==
     CASE hyp = "rfc"     -> KeySchedule(suite, mode, ss, info, psk, pskId)
       [] hyp = "swap"    -> KeySchedule(suite, mode, ss, info, pskId, psk)
@@ -39,6 +40,11 @@ KeyScheduleH(hyp, suite, mode, ss, info, psk, pskId) ==
       [] hyp = "noid"    -> KeySchedule(suite, mode, ss, info, psk, <<>>)
       [] hyp = "pskboth" -> KeySchedule(suite, mode, ss, info, psk, psk)
       [] hyp = "idboth"  -> KeySchedule(suite, mode, ss, info, pskId, pskId)
+      \* the value enters the schedule with its last one or two bytes missing
+      [] hyp = "idcut1"  -> KeySchedule(suite, mode, ss, info, psk, CutTail(pskId, 1))
+      [] hyp = "idcut2"  -> KeySchedule(suite, mode, ss, info, psk, CutTail(pskId, 2))
+      [] hyp = "pskcut1" -> KeySchedule(suite, mode, ss, info, CutTail(psk, 1), pskId)
+      [] hyp = "pskcut2" -> KeySchedule(suite, mode, ss, info, CutTail(psk, 2), pskId)
 
 \* ComputeNonce(seq) = base_nonce XOR I2OSP(seq, Nn); seq is an 8-byte counter (deviation D1)
 ComputeNonce(aead, bn, seq) == BXor(bn, Lit(Zeros(Nn(aead) - 8) \o seq))
